@@ -237,9 +237,12 @@ Fixpoint tally_lookup (id : Z) (t : tally) : Z :=
 Definition tally_agrees (obs model : tally) : bool :=
   forallb (fun '(i, n) => tally_lookup i model =? n) obs && forallb (fun '(i, n) => tally_lookup i obs =? n) model.
 
-(* ordered = true: the storage order of the values matters (multimap values, in insertion order) *)
+(* the values stored under one key are compared as a multiset: the order in which a multimap keeps equal keys is not part of
+   its contents (an implementation may insert new equal keys first or last) *)
+Fixpoint zinsert (x : Z) (l : list Z) : list Z := match l with [] => [x] | y :: t => if x <=? y then x :: y :: t else y :: zinsert x t end.
+Definition zsort (l : list Z) : list Z := fold_right zinsert [] l.
 Definition outcome_ok (dflt : Z) (start : list Z) (ops : list cop) (obs : list Z) (obs_t : tally) : bool :=
-  existsb (fun p => let '(vs, t) := crun dflt p start in zlist_eqb vs obs && tally_agrees obs_t t) (perms ops).
+  existsb (fun p => let '(vs, t) := crun dflt p start in zlist_eqb (zsort vs) (zsort obs) && tally_agrees obs_t t) (perms ops).
 
 Example outcome_examples :
   outcome_ok 7 [] [MI 10; MI 20] [20] [] = true /\ outcome_ok 7 [] [MI 10; MI 20] [10] [] = true /\
